@@ -64,6 +64,25 @@ pub struct UnitLike {}
 #[derive(Debug, Clone, PartialEq, DbSerialize)]
 pub struct Tuple2(pub i64, pub String);
 
+// types whose serialized form is empty: vectors of them carry only the length
+#[derive(Debug, Clone, PartialEq, DbSerialize)]
+pub struct Marker;
+
+#[derive(Debug, Clone, PartialEq, DbSerialize)]
+pub struct WrapZ(pub UnitLike);
+
+#[derive(Debug, Clone, PartialEq, DbSerialize)]
+pub struct TrailZ {
+    pub id: u64,
+    pub marks: Vec<UnitLike>,
+}
+
+#[derive(Debug, Clone, PartialEq, DbSerialize)]
+pub struct MidZ {
+    pub marks: Vec<Marker>,
+    pub name: String,
+}
+
 #[derive(Debug, Clone, PartialEq, DbSerialize)]
 pub struct Named {
     pub id: u64,
@@ -403,7 +422,7 @@ impl CaseEngine for C20 {
         "generated values of every built-in implementation (i64, u64, f64 bitwise incl. NaN patterns, usize, bool, String, Vec<u8>, \
          Vec<T>, nested vectors, PathBuf, SystemTime before/after the epoch with nanoseconds, IpAddr/SocketAddr v4/v6 incl. mapped, \
          scoped and flow-labelled addresses, DbValue, DbKeyValue, DbF64, DbId, QueryId(s), QueryValues, every query struct through \
-         QueryType, condition trees) and of a corpus of derived user types (unit/tuple/named structs, enums with unit/tuple/struct/wide \
+         QueryType, condition trees) and of a corpus of derived user types (unit/tuple/named structs, zero-sized types and vectors of them at the end and in the middle of a buffer, enums with unit/tuple/struct/wide \
          variants, nesting, generics, vectors of derived types): deserialize(serialize(x)) == x, re-serialization is byte-identical and \
          serialized_size(x) == serialize(x).len(). evaluations = values checked; distinct = distinct (type, variant, log2 size) triples"
             .into()
@@ -457,6 +476,17 @@ impl CaseEngine for C20 {
             // derived corpus
             rt!(fired, rep, ctx, "derive:UnitLike", UnitLike {}, "");
             rt!(fired, rep, ctx, "derive:Tuple2", g.tuple2(), "");
+            // zero-sized element types, at the end of the buffer and followed by more data
+            rt!(fired, rep, ctx, "derive:Marker", Marker, "");
+            rt!(fired, rep, ctx, "derive:Vec<UnitLike>", (0..g.len()).map(|_| UnitLike {}).collect::<Vec<UnitLike>>(), "");
+            rt!(fired, rep, ctx, "derive:Vec<Marker>", (0..g.len()).map(|_| Marker).collect::<Vec<Marker>>(), "");
+            rt!(fired, rep, ctx, "derive:Vec<WrapZ>", (0..g.len()).map(|_| WrapZ(UnitLike {})).collect::<Vec<WrapZ>>(), "");
+            rt!(fired, rep, ctx, "derive:Vec<Vec<UnitLike>>", (0..g.len().min(4)).map(|_| (0..g.len().min(4)).map(|_| UnitLike {}).collect()).collect::<Vec<Vec<UnitLike>>>(), "");
+            rt!(fired, rep, ctx, "derive:TrailZ", TrailZ { id: g.u64(), marks: (0..g.len().min(5)).map(|_| UnitLike {}).collect() }, "");
+            rt!(fired, rep, ctx, "derive:MidZ", MidZ { marks: (0..g.len().min(5)).map(|_| Marker).collect(), name: g.string() }, "");
+            rt!(fired, rep, ctx, "derive:Generic<UnitLike>", Generic { head: UnitLike {}, tail: (0..g.len().min(4)).map(|_| UnitLike {}).collect() }, "");
+            rt!(fired, rep, ctx, "Vec<Vec<u8>>", (0..g.len().min(4)).map(|_| if g.rng.chance(1, 2) { vec![] } else { g.bytes() }).collect::<Vec<Vec<u8>>>(), "");
+            rt!(fired, rep, ctx, "Vec<String>:empty_tail", { let mut v: Vec<String> = (0..g.len().min(4)).map(|_| g.string()).collect(); v.push(String::new()); v }, "");
             rt!(fired, rep, ctx, "derive:Named", g.named(), "");
             let s = g.shape();
             let sn = format!("{s:?}");
